@@ -22,6 +22,13 @@ Proof. destruct a; cbn; [apply N.leb_refl|reflexivity]. Qed.
 Lemma opt_pat_refl a : opt_pat a a = true.
 Proof. destruct a; cbn; [apply ustr_eqb_refl|reflexivity]. Qed.
 
+Lemma xall_names_In : forall bs names b, xall_names bs = Some names -> In b bs -> exists l, xnames b = Some l.
+Proof.
+  induction bs as [|b0 r IH]; intros names b Hn Hb; [destruct Hb|].
+  destruct (xall_names_cons b0 r names Hn) as (l & rest & Hb0 & Hr & _).
+  destruct Hb as [<-|Hb]; [exists l; exact Hb0|exact (IH rest b Hr Hb)].
+Qed.
+
 Section CoversMain.
   Variable cls : Heck.CharClasses.
   Variable re native : ustring -> ustring -> bool.
@@ -41,31 +48,42 @@ Section CoversMain.
     intros HC Hf Hs. rewrite (covers_frag_Gs cls re native D T s nn t Hf). unfold FT. apply HC; assumption.
   Qed.
 
+  Lemma frag_not_one s : frag cls keys s = true -> is_one s = false -> no_one s.
+  Proof.
+    destruct s as [b|ty fmt enum cst nv sv ik items ai mni mxi uq props req ap mnp mxp allo anyo oneo no ref dflt title];
+      [intros _ _; exact I|].
+    intros Hf Hio. apply frag_obj_inv in Hf. destruct Hf as (nl & k & Hcl & _ & _ & _ & Hone & _).
+    unfold is_one in Hio. cbn [classify_s] in Hio. rewrite Hcl in Hio. cbn [no_one].
+    destruct k; try exact Hone. discriminate Hio.
+  Qed.
+
   Lemma struct_case_sh ty (props : list (ustring * schema)) req ap nn ps deny :
     ty_is nn ty [TObject] = true ->
     NoDup (wire_names ps) ->
     ap_simple ap = Some deny ->
     Forall (fun kv => Cv (snd kv)) props ->
     forallb (fun kv => frag cls keys (snd kv)) props = true ->
+    forallb (fun kv => mem_ustr (fst kv) req || negb (is_one (snd kv))) props = true ->
     AllP (fun kv => exists p, In p ps /\ member_sh cls T (shape cls D T) req kv p) props ->
     (forall p, In p ps -> exists kv, In kv props /\ wire_name p = Some (fst kv)) ->
     struct_case re native T cov ty props req ap None nn ps deny = true.
   Proof.
-    intros Hty Hndw Hap HC Hfr HM Hback.
-    rewrite AllP_In in HM. rewrite Forall_forall in HC. rewrite forallb_forall in Hfr.
+    intros Hty Hndw Hap HC Hfr Hopt HM Hback.
+    rewrite AllP_In in HM. rewrite Forall_forall in HC. rewrite forallb_forall in Hfr. rewrite forallb_forall in Hopt.
     unfold struct_case. rewrite Hty, (nodup_ustr_NoDup _ Hndw). cbn [andb].
     assert (H1 : props_ok re native T cov props req None ps = true).
     { unfold props_ok. apply forallb_forall. intros [k s'] Hin. cbn [is_skip orb fst snd].
       destruct (HM (k, s') Hin) as (p & Hp & Hw & _ & Hcase). cbn [fst snd] in *.
       rewrite (find_wire k ps p Hndw Hp Hw).
-      pose proof (HC _ Hin) as HCs. pose proof (Hfr _ Hin) as Hfs. cbn [snd] in *.
-      destruct Hcase as [(Hreq & _ & Hsh)|(_ & Hst & [(Hsh & d & Hd & Hi)|(t' & Ht' & Hsh & _)])].
+      pose proof (HC _ Hin) as HCs. pose proof (Hfr _ Hin) as Hfs. pose proof (Hopt _ Hin) as Hos. cbn [fst snd] in *.
+      destruct Hcase as [(Hreq & _ & Hsh)|(Hnreq & Hst & [(Hsh & d & Hd & Hi)|(t' & Ht' & Hsh & _)])].
       - rewrite (Cv_covers s' _ false HCs Hfs Hsh), Hreq. reflexivity.
       - rewrite (Cv_covers s' _ false HCs Hfs Hsh). cbn [andb].
         rewrite (missing_optional re native T p d Hst Hd); [apply orb_true_r|].
         destruct d; try discriminate Hi; exact I.
       - rewrite (covers_frag_Gs cls re native D T s' false (p_ty p) Hfs). unfold FT.
-        rewrite (Gs_option cls re native D T s' 5 false (p_ty p) t' Hfs Ht' (HCs Hfs t' Hsh 3%nat true)).
+        rewrite Hnreq in Hos. cbn [orb] in Hos. apply negb_true_iff in Hos.
+        rewrite (Gs_option cls re native D T s' 5 false (p_ty p) t' Hfs (frag_not_one s' Hfs Hos) Ht' (HCs Hfs t' Hsh 3%nat true)).
         cbn [andb]. rewrite (missing_optional re native T p (DOption t') Hst Ht' I). apply orb_true_r. }
     rewrite H1. cbn [andb].
     assert (H2 : forallb (fun p => match wire_name p with None => true | Some w => has_key w props end) ps = true).
@@ -79,30 +97,61 @@ Section CoversMain.
     destruct ap as [[[|]|]|]; cbn in Hap; try discriminate; injection Hap as <-; reflexivity.
   Qed.
 
-  Lemma conv_C : forall s, Cv s.
+  Lemma cov_list_sh : forall its ts0, Forall Cv its -> forallb (frag cls keys) its = true ->
+    AllP2 (shape cls D T) its ts0 -> length ts0 = length its /\ cov_list cov its ts0 = true.
   Proof.
-    apply schema_ind'.
-    - intros b Hf. discriminate Hf.
+    induction its as [|it its IHl]; intros [|tq ts0] HC Hfr HA; cbn [AllP2] in HA; try contradiction.
+    - split; reflexivity.
+    - destruct HA as [HA1 HA2]. cbn [forallb] in Hfr. apply andb_true_iff in Hfr. destruct Hfr as [Hf1 Hf2].
+      destruct (IHl ts0 (Forall_inv_tail HC) Hf2 HA2) as [Hl Hc]. split; [cbn [length]; f_equal; exact Hl|].
+      cbn [cov_list]. rewrite (Cv_covers _ _ false (Forall_inv HC) Hf1 HA1), Hc. reflexivity.
+  Qed.
+
+  (* a struct / tuple payload against the data of a variant *)
+  Definition CvP (s : schema) : Prop :=
+    frag cls keys s = true ->
+    (forall ps deny, classify_s s = Some (false, KStruct deny) ->
+       struct_sh cls T (shape cls D T) (sch_props s) (sch_required s) ps -> cov s false (TProps ps deny) = true) /\
+    (forall ts, classify_s s = Some (false, KTuple) ->
+       AllP2 (shape cls D T) (snd (sch_items s)) ts -> cov s false (TTuple ts) = true).
+  Definition Cv2 (s : schema) : Prop := Cv s /\ CvP s.
+
+  Lemma ty_is_one nn t : t <> TNull -> ty_is nn (Some [t]) [t] = true.
+  Proof. intro H. destruct nn, t; try reflexivity; congruence. Qed.
+
+  Lemma conv_C2 : forall s, Cv2 s.
+  Proof.
+    apply schema_ind_x.
+    - intros b. split; [intros Hf; discriminate Hf|intros Hf; discriminate Hf].
     - intros ty fmt enum cst nv sv ik items ai mni mxi uq props req ap mnp mxp allo anyo oneo no ref dflt title
-             IHitems _ IHprops IHap _ _ _ _.
+             IHitems2 IHprops2 IHap2 IHone.
+      assert (IHitems : Forall Cv items) by (eapply Forall_impl; [|exact IHitems2]; intros a Ha; exact (proj1 Ha)).
+      assert (IHprops : Forall (fun kv => Cv (snd kv)) props)
+        by (eapply Forall_impl; [|exact IHprops2]; intros a Ha; exact (proj1 Ha)).
+      assert (IHap : OForall Cv ap) by (destruct ap; [exact (proj1 IHap2)|exact I]).
+      clear IHitems2 IHprops2 IHap2.
+      split.
+      { (* ---- against a type id *)
       intros Hf t Hs ft nn.
-      pose proof Hf as Hfi. apply frag_obj_inv in Hfi. destruct Hfi as (nl & k & Hcl & -> & -> & -> & -> & ->).
+      pose proof Hf as Hfi. apply frag_obj_inv in Hfi. destruct Hfi as (nl & k & Hcl & -> & -> & -> & Hone & ->).
       pose proof Hcl as Hcases. apply classify_cases in Hcases.
-      cbn [frag] in Hf. rewrite Hcl in Hf. change (frag_kind cls D k items props req ap = true) in Hf.
+      cbn [frag] in Hf. rewrite Hcl in Hf. change (frag_kind cls D k items props req ap oneo = true) in Hf.
       cbn [shape] in Hs. rewrite Hcl in Hs. cbn [Gs].
       destruct Hcases as [(l & tt & -> & -> & Hsp & Hkt)
                          |(-> & -> & -> & -> & -> & -> & -> & -> & -> & -> & -> & -> & -> & Hrk)].
       + pose proof Hkt as Hinv. apply kind_of_type_inv in Hinv.
         destruct Hinv as (Hnv & Hsv & Hlen & Henum & Hikk & Hobj & Hfmt & Hinv).
+        assert (Honone : oneo = None) by (destruct k; try exact Hone; contradiction).
+        subst oneo.
         assert (Htyis : forall nn0 want, (nl = true -> nn0 = true) -> tt <> TNull ->
                   existsb (itype_eqb tt) want = true -> ty_is nn0 (Some l) want = true).
         { intros nn0 want Hnn Hnull Hw'. eapply ty_is_split; eassumption. }
-        assert (Hleaf : forall t0, kshape cls D T (shape cls D T) k items props req ap t0 ->
+        assert (Hleaf : forall t0, kshape cls D T (shape cls D T) k items props req ap None t0 ->
                   forall ft0 nn0, (nl = true -> nn0 = true) ->
                   go re native T A cov (Some l) fmt enum None nv sv ik items mni mxi props req ap
                      None None None None None (S ft0) nn0 t0 = true).
         { intros t0 Hk0 ft0 nn0 Hnn.
-          destruct k as [| | | |mx mn pat|r|raws|deny| | |c|c|r|]; try contradiction; cbn [kshape] in Hk0.
+          destruct k as [| | | |mx mn pat|r|raws|deny| | |c|c|r| |tg]; try contradiction; cbn [kshape] in Hk0.
           - subst tt. eapply go_leaf; [exact Hk0|reflexivity..|].
             cbn [leaf_ok]. apply Htyis; [exact Hnn|discriminate|reflexivity].
           - subst tt. eapply go_leaf; [exact Hk0|reflexivity..|].
@@ -136,7 +185,8 @@ Section CoversMain.
               symmetry. apply (variant_idents_length _ _ _ Hv).
             + rewrite Hfv, Hvs. reflexivity.
           - destruct Hk0 as (n & ps & Hk0 & Hndw & _ & HM & Hback). destruct Hinv as [-> Hap].
-            cbn [frag_kind] in Hf. apply andb_true_iff in Hf. destruct Hf as [_ Hfp].
+            cbn [frag_kind] in Hf. apply andb_true_iff in Hf. destruct Hf as [Hf Hfp].
+            apply andb_true_iff in Hf. destruct Hf as [_ Hopt].
             eapply go_leaf; [exact Hk0|reflexivity..|].
             cbn [leaf_ok]. apply struct_case_sh; try assumption.
             apply Htyis; [exact Hnn|discriminate|reflexivity].
@@ -155,14 +205,7 @@ Section CoversMain.
             cbn [frag_kind] in Hf.
             eapply go_leaf; [exact Hk0|reflexivity..|].
             cbn [leaf_ok]. unfold tuple_case. rewrite (Htyis nn0 [TArray] Hnn); [|discriminate|reflexivity]. cbn [andb].
-            assert (Hcvl : forall its ts0, Forall Cv its -> forallb (frag cls keys) its = true ->
-                       AllP2 (shape cls D T) its ts0 -> length ts0 = length its /\ cov_list cov its ts0 = true).
-            { induction its as [|it its IHl]; intros [|tq ts0] HC Hfr HA; cbn [AllP2] in HA; try contradiction.
-              - split; reflexivity.
-              - destruct HA as [HA1 HA2]. cbn [forallb] in Hfr. apply andb_true_iff in Hfr. destruct Hfr as [Hf1 Hf2].
-                destruct (IHl ts0 (Forall_inv_tail HC) Hf2 HA2) as [Hl Hc]. split; [cbn [length]; f_equal; exact Hl|].
-                cbn [cov_list]. rewrite (Cv_covers _ _ false (Forall_inv HC) Hf1 HA1), Hc. reflexivity. }
-            destruct (Hcvl items ts IHitems Hf Hall) as [Hl Hc]. rewrite Hl, N.eqb_refl, Hc. reflexivity.
+            destruct (cov_list_sh items ts IHitems Hf Hall) as [Hl Hc]. rewrite Hl, N.eqb_refl, Hc. reflexivity.
           - destruct Hk0 as (i & Hk0 & Hit). destruct Hinv as (-> & -> & it & ->).
             cbn [frag_kind forallb] in Hf. rewrite andb_true_r in Hf.
             pose proof (Cv_covers _ _ false (Forall_inv IHitems) Hf Hit) as Hel.
@@ -179,10 +222,80 @@ Section CoversMain.
         destruct nl.
         * destruct Hs as (i & Ht & Hki). eapply go_option; [exact Ht|]. apply (Hleaf i Hki ft true). reflexivity.
         * apply (Hleaf t Hs (S ft) nn). discriminate.
-      + destruct Hrk as [(r & -> & ->)|(-> & ->)]; cbn [kshape] in Hs.
-        * destruct Hs as (Hri & d & Hd & _). eapply go_ref; [exact Hd|reflexivity|]. apply mem_pair_ref. exact Hri.
-        * apply go_json. exact Hs.
+      + destruct Hrk as [(r & -> & ->)|[(-> & ->)|(bs & tg & -> & -> & -> & Hok)]]; cbn [kshape] in Hs.
+        * subst oneo. destruct Hs as (Hri & d & Hd & _). eapply go_ref; [exact Hd|reflexivity|]. apply mem_pair_ref. exact Hri.
+        * subst oneo. apply go_json. exact Hs.
+        * (* an externally tagged oneOf *)
+          destruct (one_kind_external bs tg Hok) as (-> & names0 & Hn0 & _).
+          destruct Hs as (n & vs & deny & bes & names & ids & Hd & Hnames & Hndn & Hv & Hraw & Hident & Hbr).
+          cbn [frag_kind] in Hf. rewrite Hnames in Hf.
+          apply andb_true_iff in Hf. destruct Hf as [Hf Hfrs]. apply andb_true_iff in Hf. destruct Hf as [_ Hpay].
+          eapply go_union; [exact Hd|reflexivity|reflexivity|]. cbn [union_ok].
+          apply forallb_forall. intros b Hb.
+          pose proof (proj1 (AllP_In _ _) Hbr b Hb) as Hbsh.
+          assert (Hndv : NoDup (map v_raw vs)) by (rewrite Hraw; exact Hndn).
+          cbn [OForall] in IHone. rewrite Forall_forall in IHone. pose proof (IHone b Hb) as IHb.
+          assert (Hfb : one_fold (fun v sc => frag cls keys sc) true b = true).
+          { clear - Hfrs Hb. induction bs as [|b0 r IH]; [destruct Hb|].
+            rewrite one_frags_cons in Hfrs. apply andb_true_iff in Hfrs. destruct Hfrs as [H1 H2].
+            destruct Hb as [<-|Hb]; [exact H1|exact (IH H2 Hb)]. }
+          destruct (xall_names_In bs names b Hnames Hb) as (l & Hl).
+          destruct (xnames_cases b l Hl) as [(es & -> & Hj & Hne)|(v & sc & -> & ->)].
+          -- (* unit variants *)
+             cbn [external_branch_ok xsimple_sch]. rewrite ty_is_one by discriminate. cbn [andb].
+             apply orb_true_iff. left. rewrite (jstrs_map _ _ Hj). apply forallb_forall. intros e Hein.
+             apply in_map_iff in Hein. destruct Hein as (x & <- & Hx). cbn [str_simple].
+             cbn [branch_sh xsimple_sch] in Hbsh.
+             destruct (Hbsh l (xsimple_sch_spec es l Hj Hne) x Hx) as (vr & Hvr & Hrw & Hdt).
+             destruct (find_variant_nodup vs Hndv vr 0%nat Hvr) as (i & Hfv). rewrite Hrw in Hfv. rewrite Hfv, Hdt. reflexivity.
+          -- (* a variant with data *)
+             cbn [external_branch_ok xbranch]. rewrite ty_is_one by discriminate. cbn [is_ap_false andb fst snd].
+             apply orb_true_iff. right. unfold mem_ustr. cbn [existsb]. rewrite ustr_eqb_refl. cbn [orb andb].
+             cbn [branch_sh xbranch] in Hbsh. destruct Hbsh as (vr & Hvr & Hrw & Hpsh).
+             destruct (find_variant_nodup vs Hndv vr 0%nat Hvr) as (i & Hfv). rewrite Hrw in Hfv. rewrite Hfv.
+             cbn [one_fold xbranch] in Hfb.
+             destruct (IHb v sc (xtyped_sch v sc)) as [HCsc HCPsc].
+             unfold payload_ok. destruct (v_det vr) as [|t'|ts|ps]; cbn [payload_sh] in Hpsh.
+             ++ contradiction.
+             ++ exact (Cv_covers sc t' false HCsc Hfb Hpsh).
+             ++ destruct Hpsh as [Hcl' Hall]. apply (proj2 (HCPsc Hfb) ts Hcl').
+                destruct sc; [contradiction|exact Hall].
+             ++ destruct Hpsh as [Hcl' Hss]. apply (proj1 (HCPsc Hfb) ps deny Hcl').
+                destruct sc; [contradiction|exact Hss]. }
+      { (* ---- a struct / tuple payload against the data of a variant *)
+      intros Hf. split.
+      + intros ps deny Hcl Hss. cbn [classify_s] in Hcl. cbn [sch_props sch_required] in Hss.
+        pose proof Hf as Hfi. apply frag_obj_inv in Hfi. destruct Hfi as (nl & k & Hcl' & -> & -> & -> & Hone & ->).
+        rewrite Hcl in Hcl'. injection Hcl' as <- <-. cbn in Hone. subst oneo.
+        cbn [frag] in Hf. rewrite Hcl in Hf. change (frag_kind cls D (KStruct deny) items props req ap None = true) in Hf.
+        pose proof Hcl as Hcases. apply classify_cases in Hcases.
+        destruct Hcases as [(l & tt & -> & -> & Hsp & Hkt)
+                           |(_ & _ & _ & _ & _ & _ & _ & _ & _ & _ & _ & _ & _ & [(r & _ & Hk)|[(_ & Hk)|(bs & tg & _ & _ & Hk & _)]])];
+          try discriminate Hk.
+        apply kind_of_type_inv in Hkt. destruct Hkt as (_ & _ & _ & _ & _ & _ & _ & -> & Hap).
+        cbn [covers covers_obj orb]. destruct Hss as (Hndw & _ & HM & Hback).
+        cbn [frag_kind] in Hf. apply andb_true_iff in Hf. destruct Hf as [Hf Hfp].
+        apply andb_true_iff in Hf. destruct Hf as [_ Hopt].
+        apply struct_case_sh; try assumption.
+        eapply ty_is_split; [exact Hsp|discriminate|discriminate|reflexivity].
+      + intros ts Hcl Hall. cbn [classify_s] in Hcl. cbn [sch_items snd] in Hall.
+        pose proof Hf as Hfi. apply frag_obj_inv in Hfi. destruct Hfi as (nl & k & Hcl' & -> & -> & -> & Hone & ->).
+        rewrite Hcl in Hcl'. injection Hcl' as <- <-. cbn in Hone. subst oneo.
+        cbn [frag] in Hf. rewrite Hcl in Hf. change (frag_kind cls D KTuple items props req ap None = true) in Hf.
+        pose proof Hcl as Hcases. apply classify_cases in Hcases.
+        destruct Hcases as [(l & tt & -> & -> & Hsp & Hkt)
+                           |(_ & _ & _ & _ & _ & _ & _ & _ & _ & _ & _ & _ & _ & [(r & _ & Hk)|[(_ & Hk)|(bs & tg & _ & _ & Hk & _)]])];
+          try discriminate Hk.
+        apply kind_of_type_inv in Hkt. destruct Hkt as (_ & _ & Hlen & _ & _ & _ & _ & -> & ->).
+        apply tuple_len_inv in Hlen. destruct Hlen as [-> ->].
+        cbn [covers covers_obj orb]. unfold tuple_case.
+        rewrite (ty_is_split l false TArray false [TArray] Hsp) by (try discriminate; reflexivity). cbn [andb].
+        cbn [frag_kind] in Hf.
+        destruct (cov_list_sh items ts IHitems Hf Hall) as [Hl Hc]. rewrite Hl, N.eqb_refl, Hc. reflexivity. }
   Qed.
+
+  Lemma conv_C : forall s, Cv s.
+  Proof. intro s. exact (proj1 (conv_C2 s)). Qed.
 
   Lemma topshape_covers s t :
     frag cls keys s = true -> topshape cls D T s t -> cov s false (TId t) = true.
